@@ -390,7 +390,7 @@ Proof.
       exists f, Tr'. split; auto. split; auto. intros n. rewrite HTr. split.
       * intros [[Ht Hp] Hall]. split; auto. intros c' [<- | Hc'] Hle; auto.
       * intros [Ht Hall]. split; [split; auto; apply Hall; [left; reflexivity | lra]|].
-        intros c' Hc' Hle. apply Hall; auto. right; exact Hc'.
+        intros c' Hc' Hle. apply Hall; simpl; auto.
 Qed.
 
 Theorem getitem_reach t0 t1 w0 w1 (cs : list (chopper O)) s d : t0 <= t1 -> w0 <= w1 ->
@@ -406,8 +406,12 @@ Proof.
   pose proof (inv_source t0 t1 w0 w1 Ht Hw) as I0.
   destruct (getitem_go (src_rect t0 t1 w0 w1) d (sort O cs) _ fs _ I0 (sort_sorted cs) Eg) as (f & Tr' & Efb & If & HTr); [simpl; lra|].
   assert (Eget : getitem O d (source O t0 t1 w0 w1 ++ fs) = Some (propagate_to O d f)).
-  { unfold getitem. simpl. unfold Rltb. destruct (Rlt_dec d 0); [lra|].
-    simpl in Efb. rewrite Efb. reflexivity. }
+  { unfold getitem.
+    change (source O t0 t1 w0 w1 ++ fs) with (mkframe (O:=O) 0 [rect_poly t0 t1 w0 w1] :: fs).
+    change (frame_before O d (mkframe (O:=O) 0 [rect_poly t0 t1 w0 w1] :: fs) None)
+      with (if Rltb d 0 then None else frame_before O d fs (Some (mkframe (O:=O) 0 [rect_poly t0 t1 w0 w1]))).
+    rewrite (Rltb_false d 0 Hd). change (last_frame O (source O t0 t1 w0 w1)) with (mkframe (O:=O) 0 [rect_poly t0 t1 w0 w1]) in Efb.
+    rewrite Efb. reflexivity. }
   exists (propagate_to O d f). split; auto. intros p.
   destruct (inv_propagate _ _ _ d If) as [_ H]. rewrite H. simpl fdist.
   unfold ReachP, Reach. split; intros (n & Hr & Htr & HE); exists n; (split; [exact Hr | split; [|exact HE]]).
